@@ -179,3 +179,14 @@ check("C13",
       "it computes); 1 probe per minimisation in quick; clamp creation through the exact-root contract",
       "symbolic execution of the real Python code with z3 (symx), demonic environment stubs, scripted replay",
       "DESIGN.md 4/C13")
+check("C16",
+      "Bounded symbolic execution of DiscreteCurve.discretize/get_length/get_point/get_closest_param, "
+      "LinearInterpolatedCurve (InterpolatorBase.params, get_point, discretize, get_length), LineCurve "
+      "(discretize/get_point/AnalyticCurve.get_length) and OnCurveEdge on a discrete curve (param_start/param_end/"
+      "point_array/length) with symbolic point offsets resp. symbolic parameters and query points. z3 shows the "
+      "end-point, through-points, additivity, polyline-length, closest-point and snapped-edge obligations.",
+      "interp1d(linear) is a piecewise-linear model (validated against scipy each run); interpolated curves use concrete "
+      "uneven points with symbolic parameters; spline-interpolated/analytic curves and minimiser-based closest-parameter "
+      "search are outside",
+      "symbolic execution of the real Python code with z3 (symx), concrete replay",
+      "DESIGN.md 4/C16")
